@@ -20,7 +20,7 @@ ANCHORS = ["raggedarray/base.py::RaggedBase.ravel", "raggedarray/base.py::Ragged
 FLOOR_TAGS = ["class:A", "class:B", "plan:everything", "plan:random", "inserted-read-on-lazy", "inserted:meta", "inserted:repr", "inserted:tolist", "inserted:sel", "inserted:sum0",
               "inserted:ell", "inserted:row", "inserted:maskidx"]
 FLOOR_MONITORS = ["c10:pair", "purity-tap", "inv:ragged"]
-N_RANDOM = {"quick": 1500, "thorough": 100000}
+N_RANDOM = {"quick": 3000, "thorough": 100000}
 
 
 def setup(lib):
